@@ -312,7 +312,11 @@ func class(input, obs string) string {
 		return ""
 	}
 	sx, _ := strconv.ParseInt(m["sx"], 10, 64)
-	if m["hx"] == "1" {
+	if m["mal"] == "3" {
+		parts = append(parts, "broken-"+m["bk"])
+	} else if m["fm"] != "" {
+		parts = append(parts, "function-matrix")
+	} else if m["hx"] == "1" {
 		parts = append(parts, "explicit-hcl")
 	} else if sx%3 != 0 {
 		hf := printHCL(d, rand.New(rand.NewSource(sx)), int(sx%3)*30)
@@ -321,6 +325,12 @@ func class(input, obs string) string {
 		}
 		if hf.redef > 0 {
 			parts = append(parts, "local-redefined")
+		}
+		if hf.bare > 0 {
+			parts = append(parts, "bare-number")
+		}
+		if hf.idx > 0 {
+			parts = append(parts, "local-member")
 		}
 	}
 	switch m["mal"] {
@@ -871,6 +881,18 @@ func generate(r *rand.Rand, tier string) []string {
 	out = append(out, sample(r, enumSteps(), k)...)
 	out = append(out, sample(r, enumWeights(), k)...)
 	out = append(out, sample(r, enumLocals(), k)...)
+	// every registered function on arguments that tell it apart from every other one: all, in both tiers
+	out = append(out, enumFunctions()...)
+	// files with a piece that does not evaluate (must be refused as a whole)
+	nb := 150
+	if tier == "thorough" {
+		nb = 4000
+	}
+	for i := 0; i < nb; i++ {
+		if l := brokenLine(r, r.Int63n(1<<40), g.describe()); l != "" {
+			out = append(out, l)
+		}
+	}
 	return out
 }
 
